@@ -43,9 +43,15 @@ class Func:
         return self.f.get('file', self.unit.get('_src', '?'))
 
     def where(self, inst=None):
+        fl = self.file()
+        for d in ('/src/', '/inc/'):
+            k = fl.rfind(d)
+            if k >= 0:
+                fl = fl[k + 1:]
+                break
         if inst is None:
-            return '%s:%s' % (self.file().replace('/repo/', ''), self.f.get('line', '?'))
-        return '%s:%s' % (self.file().replace('/repo/', ''), inst.get('line', '?'))
+            return '%s:%s' % (fl, self.f.get('line', '?'))
+        return '%s:%s' % (fl, inst.get('line', '?'))
 
     # -- dominators
     @staticmethod
